@@ -116,7 +116,12 @@ def render_helpers(c: Dict[str, Any], role: str, out: List[str]) -> None:
         plain = [n for n in eargs if n not in dflt]
         # ``eextra``: a defaulted parameter that names no call value at all (``lambda x, note=note: ...``) keeps its default
         extra = ["extra_note_=EDEFAULT"] if c.get("eextra") else []
-        return plain + ["{}=EDEFAULT".format(n) for n in dflt] + extra
+        sig = plain + ["{}=EDEFAULT".format(n) for n in dflt] + extra
+        # ``ekwonly``: from this position on the parameters are keyword-only (``lambda x, *, result: ...``); factories are called by
+        # keyword, so the kind of a parameter makes no difference to what it must receive
+        if c.get("ekwonly") is not None and sig:
+            sig.insert(min(c["ekwonly"], len(sig) - 1), "*")
+        return sig
 
     if c.get("err") == "factory":
         eargs = c.get("eargs", [])
